@@ -54,7 +54,7 @@ def snapshot(x):
     return O.content(x) + gmd(x)
 
 
-def starts():
+def starts(loaded=True):
     import numpy as np
     from biom import Table
     from ..model import M
@@ -64,6 +64,8 @@ def starts():
                                     observation_group_metadata={'tree': ('newick', '(o1,o2);')},
                                     sample_group_metadata={'graph': ('text', 'a-b-c')}),
                        M(['o1', 'o2'], ['a', 'b', 'c'], D, [{'k': '1'}, {'k': '2'}], None))
+    if loaded:
+        S.update(OPS.loaded_start_tables())      # tables read from a file (thorough tier)
     return S
 
 
@@ -172,14 +174,14 @@ def on_transition(tr, report):
                    'copying variant returns' % E.opname(op))
 
 
-def spec(depth):
-    return E.Spec(starts(), OPS.all_ops(), depth, check_ops=(), on_transition=on_transition,
+def spec(depth, loaded=True):
+    return E.Spec(starts(loaded), OPS.all_ops(), depth, check_ops=(), on_transition=on_transition,
                   apply=apply, want_before=True, label='d%d' % depth)
 
 
 def run(run):
     depth = 2 if run.quick else 3
-    info = E.explore(run, spec(depth))
+    info = E.explore(run, spec(depth, loaded=not run.quick))
     run.extra['state_depth'] = info['depth_completed'] - 1
     run.extra['depth_completed'] = info['depth_completed']
     run.extra['mutator_sequences'] = {k: len(v) for k, v in SEQS.items()}
